@@ -6,6 +6,8 @@ import DryocVerif.Proofs.RawExtra
 import DryocVerif.Proofs.StreamPushRawExtra
 import DryocVerif.Gen.Stream
 import DryocVerif.Proofs.GenStream
+import DryocVerif.Proofs.ObjectViewStreamExtra
+import DryocVerif.Proofs.StreamStoreExtra
 /-
 C03 — secretstream: push/pull round trip with state lockstep through every rekey branch,
 rejected pulls leave everything untouched, counters never repeat inside a key epoch,
@@ -13,11 +15,30 @@ rejected pulls leave everything untouched, counters never repeat inside a key ep
 authenticated string is an injective encoding of (AD, tag block, ciphertext).
 Property theorems only; helper lemmas live in `DryocVerif/Proofs/SecretStream.lean`.
 
-Hypotheses (the only ones used anywhere):
+Hypotheses.  The two that recur:
   `WF P`      : `(P.chacha k n c l).length = l` and `(P.mac k m).length = 16`
   `StateWF s` : `s.k.length = 32` and `s.nonce.length = 12`
+They are NOT the only ones (corrected after the third review; the header used to say "the only ones used anywhere"):
+`macInput_injective` needs six bounds (two block lengths `= 64`, `ad.len() < 2^64` twice, `64 + c.len() < 2^64` twice),
+the reductions of section 12 carry the corresponding `< 2^64` slice bounds, `counters_distinct_within_epoch` /
+`skip_*` the no-REKEY-bit and no-wrap conditions, the `…Checked` / `…Raw` theorems of section 14 the length bound
+`≤ STREAM_BODY_MAX` (`SizesOk`), the lossy-delivery theorems of section 3a their delivery-schedule hypotheses, and the
+`*_concrete` theorems the array lengths of key and header.  Each is stated at the theorem.
 Every theorem is for every `P`, every state (every counter value, `ff ff ff ff` included),
 every message, AD and tag byte.  Where a hypothesis is not needed it is simply not assumed.
+
+API FORMS WITHOUT A MODEL NAME OF THEIR OWN (third review).  `associated_data: None` ≡ `Some(&[])` ≡ the model's
+`ad = []` (`associated_data.unwrap_or(&[])` is the first use in `push` and `pull`); `Clone` = copying the model's `State`
+value; `PartialEq` / `Eq` = `DecidableEq State`; `State::new()` / `Default` = key 0³², nonce 0¹² (counter 0) —
+`Model.ObjectViewStream.stateNew`, overwritten by `init_push` / `init_pull` before use, which start the counter at 1
+(`initState_counter`).  `DryocStream::init_pull` / `init_push` with a `Vec<u8>` / `&[u8]` key or header:
+`Model/ObjectViewStream.lean`, stated in C04 (observation section).
+
+THE `*_concrete` THEOREMS (section 11) carry no length bound and are MEANINGFUL FOR messages of at most
+`STREAM_BODY_MAX = 64·(2^32 − 3)` bytes only: beyond it they hold merely because `Spec/ChaCha20.lean` wraps its 32-bit
+block counter (`UInt32.ofNat ctr`), which the ChaCha20 crate refuses to do (`body_counters_no_wrap`: within the bound no
+block counter of the body reaches `2^32 − 1`).  `historyChecked_lockstep_concrete` is the version with the bound, about
+the statement-by-statement functions.
 
 WHAT IS NOT A THEOREM HERE.  The property also says "every ciphertext and both states equal those of
 libsodium".  That half is carried by NO theorem of this file: there is no separate `Spec` for secretstream
@@ -40,7 +61,10 @@ namespace DryocVerif.Properties.C03
 open DryocVerif DryocVerif.Model.Utils DryocVerif.Model.SecretStream
 open DryocVerif.Proofs.SecretStream (WF StateWF macKey pullBlock pullMac pullTag ctBody ctMac advanceRun)
 
-/-- a rejected pull leaves the stream state, the message buffer and the tag variable as they were -/
+/-- a rejected pull leaves the stream state, the message buffer and the tag variable as they were.  BY DEFINITION of
+the model: every `.err` branch of `pull` is written `⟨.err, m, tagv, s⟩`, so this theorem unfolds `pull` and would survive
+any reordering of the writes in the Rust.  The statement that depends on the ORDER of the statements of the source is
+`pullStmts_err_untouched` (section 14b, store-passing model), and `pullStmts_eq_pullRaw` ties `pull` to it. -/
 theorem failed_pull_preserves (P : Prims) (s : State) (m : Bytes) (tagv : UInt8) (ct ad : Bytes)
     (h : (pull P s m tagv ct ad).res = .err) :
     (pull P s m tagv ct ad).st = s ∧ (pull P s m tagv ct ad).buf = m ∧ (pull P s m tagv ct ad).tag = tagv := by
@@ -113,6 +137,18 @@ theorem initState_wf (P : Prims) (header key : Bytes) (hh : 24 ≤ header.length
 /-- … and it cannot be dropped: a 23-byte header gives an 11-byte nonce -/
 example : (initState ⟨fun _ _ _ l => zeros l, fun _ _ => zeros 32, fun _ _ => zeros 16⟩ (zeros 23) []).nonce.length = 11 := by
   decide
+
+/-- `init_push` / `init_pull` start the message counter at 1 (`01 00 00 00`), for every key and header; the all-zero
+`State::new()` they start from (`Model.ObjectViewStream.stateNew`: key 0³², counter 0) does not survive (definitional:
+`initState` writes the literal) -/
+theorem initState_counter (P : Prims) (header key : Bytes) : (initState P header key).counter = [1, 0, 0, 0] :=
+  Proofs.ObjectViewStream.initState_counter P header key
+
+/-- `State::new()` = `State::default()`: all-zero key, counter 0, inner nonce 0 -/
+theorem stateNew_fields :
+    Model.ObjectViewStream.stateNew.k = zeros 32 ∧ Model.ObjectViewStream.stateNew.counter = [0, 0, 0, 0] ∧
+    Model.ObjectViewStream.stateNew.inonce = zeros 8 :=
+  Proofs.ObjectViewStream.stateNew_fields
 
 /-! ### 3. arbitrary histories stay in lockstep -/
 
@@ -228,6 +264,189 @@ theorem genuine_still_accepted (P : Prims) (hP : WF P) (s : State) (m ad : Bytes
   rw [rejected_pulls_preserve P as s hrej]
   exact pull_push P hP s m ad tag c s' h buf tagv hb
 
+/-! ### 4a. histories with REJECTED deliveries in between (third review)
+
+`history_lockstep` feeds the pull side exactly the sender's wire; `rejected_pulls_preserve` /
+`genuine_still_accepted` handle a burst of forgeries in front of ONE genuine ciphertext.  Here the two are combined:
+a delivery schedule interleaves any number of made-up deliveries with the genuine wire items. -/
+
+/-- one delivery to the receiving application: the `i`-th item of the sender's wire, or whatever the adversary made up -/
+inductive Deliver where
+  | wire (i : Nat)
+  | forged (ct ad : Bytes)
+  deriving Repr, DecidableEq
+
+/-- `runPull` over an arbitrary `DryocStream::pull` (`objPull P`, `objPullCode P`, …) -/
+def runPullWith (pullFn : State → Bytes → Bytes → Outcome (Bytes × UInt8) × State) (P : Prims) :
+    State → List Wire → Option (State × List (Bytes × UInt8))
+  | s, [] => some (s, [])
+  | s, .rekey :: ws => runPullWith pullFn P (rekey P s) ws
+  | s, .msg ct ad :: ws =>
+    match pullFn s ct ad with
+    | (.ok mt, s') => (runPullWith pullFn P s' ws).map fun r => (r.1, mt :: r.2)
+    | _ => none
+
+theorem runPull_eq_runPullWith (P : Prims) (s : State) (ws : List Wire) :
+    runPull P s ws = runPullWith (objPull P) P s ws := by
+  induction ws generalizing s with
+  | nil => rfl
+  | cons w ws ih =>
+    cases w with
+    | rekey => simp only [runPull, runPullWith, ih]
+    | msg ct ad =>
+      simp only [runPull, runPullWith]
+      split <;> simp_all
+
+/-- the pull side under a delivery schedule: a delivery that is REJECTED (`Err`) is dropped and the run continues
+with the state the function LEFT (not "the old state": `.2` of the result); an accepted one is recorded; `none` on a
+panic or on an index outside the wire -/
+def runPullLossy (pullFn : State → Bytes → Bytes → Outcome (Bytes × UInt8) × State) (P : Prims) (ws : List Wire) :
+    State → List Deliver → Option (State × List (Bytes × UInt8))
+  | s, [] => some (s, [])
+  | s, .forged ct ad :: ds =>
+    match pullFn s ct ad with
+    | (.ok mt, s') => (runPullLossy pullFn P ws s' ds).map fun r => (r.1, mt :: r.2)
+    | (.err, s') => runPullLossy pullFn P ws s' ds
+    | (.panic, _) => none
+  | s, .wire i :: ds =>
+    match ws[i]? with
+    | none => none
+    | some .rekey => runPullLossy pullFn P ws (rekey P s) ds
+    | some (.msg ct ad) =>
+      match pullFn s ct ad with
+      | (.ok mt, s') => (runPullLossy pullFn P ws s' ds).map fun r => (r.1, mt :: r.2)
+      | (.err, s') => runPullLossy pullFn P ws s' ds
+      | (.panic, _) => none
+
+/-- the hypothesis "every forged delivery is rejected at the state where it is offered", following the run (a `Bool`, so
+that it can be evaluated on concrete schedules; used as the proposition `forgedRejected … = true`) -/
+def forgedRejected (pullFn : State → Bytes → Bytes → Outcome (Bytes × UInt8) × State) (P : Prims) (ws : List Wire) :
+    State → List Deliver → Bool
+  | _, [] => true
+  | s, .forged ct ad :: ds =>
+    decide ((pullFn s ct ad).1 = .err) && forgedRejected pullFn P ws (pullFn s ct ad).2 ds
+  | s, .wire i :: ds =>
+    match ws[i]? with
+    | none => true
+    | some .rekey => forgedRejected pullFn P ws (rekey P s) ds
+    | some (.msg ct ad) => forgedRejected pullFn P ws (pullFn s ct ad).2 ds
+
+/-- the genuine deliveries of a schedule, in the order they are made -/
+def genuine : List Deliver → List Nat
+  | [] => []
+  | .wire i :: ds => i :: genuine ds
+  | .forged _ _ :: ds => genuine ds
+
+/-- core of the lossy lock-step, for any pull function whose rejections leave the state alone: if the rest of the wire
+(from item `k` on) is accepted in order from state `s`, so is any schedule that delivers exactly those items in order
+with rejected forgeries in between — same outputs, same final state -/
+theorem runPullLossy_of_runPullWith (pullFn : State → Bytes → Bytes → Outcome (Bytes × UInt8) × State) (P : Prims)
+    (hkeep : ∀ s ct ad, (pullFn s ct ad).1 = .err → (pullFn s ct ad).2 = s)
+    (ws : List Wire) (ds : List Deliver) (k : Nat) (s : State) (r : State × List (Bytes × UInt8))
+    (hk : k ≤ ws.length)
+    (hrun : runPullWith pullFn P s (ws.drop k) = some r)
+    (hord : genuine ds = List.range' k (ws.length - k))
+    (hrej : forgedRejected pullFn P ws s ds = true) :
+    runPullLossy pullFn P ws s ds = some r := by
+  induction ds generalizing k s r with
+  | nil =>
+    have h0 : ws.length - k = 0 := by
+      cases hn : ws.length - k with
+      | zero => rfl
+      | succ n => rw [hn] at hord; simp [genuine, List.range'] at hord
+    have hd : ws.drop k = [] := List.drop_eq_nil_of_le (by omega)
+    rw [hd] at hrun
+    simpa [runPullWith, runPullLossy] using hrun
+  | cons d ds ih =>
+    cases d with
+    | forged ct ad =>
+      simp only [forgedRejected, Bool.and_eq_true, decide_eq_true_eq] at hrej
+      obtain ⟨he, hrest⟩ := hrej
+      have hs := hkeep s ct ad he
+      have hp : pullFn s ct ad = (.err, s) := Prod.ext he hs
+      rw [hs] at hrest
+      simp only [runPullLossy, hp]
+      exact ih k s r hk hrun hord hrest
+    | wire i =>
+      simp only [genuine] at hord
+      cases hn : ws.length - k with
+      | zero => rw [hn] at hord; simp [List.range'] at hord
+      | succ n =>
+        rw [hn, List.range'] at hord
+        simp only [List.cons.injEq] at hord
+        obtain ⟨hi, hord'⟩ := hord
+        subst hi
+        have hlt : i < ws.length := by omega
+        have hget : ws[i]? = some ws[i] := List.getElem?_eq_getElem hlt
+        have hdrop : ws.drop i = ws[i] :: ws.drop (i + 1) := List.drop_eq_getElem_cons hlt
+        have hord'' : genuine ds = List.range' (i + 1) (ws.length - (i + 1)) := by
+          rw [hord']; congr 1; omega
+        rw [hdrop] at hrun
+        cases hw : ws[i] with
+        | rekey =>
+          rw [hw] at hrun hget
+          simp only [forgedRejected, hget] at hrej
+          simp only [runPullLossy, hget]
+          simp only [runPullWith] at hrun
+          exact ih (i + 1) (rekey P s) r (by omega) hrun hord'' hrej
+        | msg ct ad =>
+          rw [hw] at hrun hget
+          simp only [forgedRejected, hget] at hrej
+          simp only [runPullLossy, hget]
+          simp only [runPullWith] at hrun
+          cases hp : pullFn s ct ad with
+          | mk o s' =>
+            rw [hp] at hrun hrej
+            cases o with
+            | ok mt =>
+              simp only at hrun hrej ⊢
+              cases hr : runPullWith pullFn P s' (ws.drop (i + 1)) with
+              | none => rw [hr] at hrun; simp at hrun
+              | some r' =>
+                rw [hr] at hrun
+                rw [ih (i + 1) s' r' (by omega) hr hord'' hrej]
+                exact hrun
+            | err => simp at hrun
+            | panic => simp at hrun
+
+/-- **`history_lockstep` with rejected deliveries in between** (total model `objPush` / `objPull`).  The sender runs any
+history `ops`; the receiver is fed a schedule `ds` that delivers the wire items in order (`genuine ds = [0, 1, …]`),
+interleaved with ANY number of other deliveries, each of which is rejected at the state where it is offered.  Then the
+receiver returns exactly the pushed `(message, tag)` list and ends in the sender's state: rejected deliveries cost
+nothing and desynchronise nothing.  (Builds on the fact behind `rejected_pulls_preserve` — a rejected pull leaves the
+state — and on `history_lockstep` for the genuine items.) -/
+theorem history_lockstep_lossy (P : Prims) (hP : WF P) (ops : List Op) (s : State) (ds : List Deliver)
+    (hord : genuine ds = List.range (runPush P s ops).2.length)
+    (hrej : forgedRejected (objPull P) P (runPush P s ops).2 s ds = true) :
+    runPullLossy (objPull P) P (runPush P s ops).2 s ds = some ((runPush P s ops).1, sent ops) := by
+  have h := (history_lockstep P hP ops s).1
+  rw [runPull_eq_runPullWith] at h
+  refine runPullLossy_of_runPullWith (objPull P) P
+    (fun s ct ad he => Proofs.SecretStream.objPull_err_state P s ct ad he)
+    _ ds 0 s _ (Nat.zero_le _) (by simpa using h) (by rw [hord, List.range_eq_range']; simp) hrej
+
+/-- the schedule with no forgeries at all is `history_lockstep` -/
+theorem history_lockstep_lossy_none (P : Prims) (hP : WF P) (ops : List Op) (s : State) :
+    runPullLossy (objPull P) P (runPush P s ops).2 s ((List.range (runPush P s ops).2.length).map Deliver.wire)
+      = some ((runPush P s ops).1, sent ops) := by
+  have hg : ∀ l : List Nat, genuine (l.map Deliver.wire) = l := by
+    intro l; induction l with
+    | nil => rfl
+    | cons a l ih => simp [genuine, ih]
+  have hr : ∀ (ws : List Wire) (l : List Nat) (t : State),
+      forgedRejected (objPull P) P ws t (l.map Deliver.wire) = true := by
+    intro ws l
+    induction l with
+    | nil => intro t; rfl
+    | cons a l ih =>
+      intro t
+      simp only [List.map_cons, forgedRejected]
+      split
+      · rfl
+      · exact ih _
+      · exact ih _
+  exact history_lockstep_lossy P hP ops s _ (hg _) (hr _ _ _)
+
 /-! ### 5. counters inside a key epoch -/
 
 /-- `rekey` always restarts the counter at 1 -/
@@ -285,7 +504,8 @@ theorem counter_wrap_iff (c : Bytes) (hc : c.length = 4) :
 
 /-! ### 6. `pull` accepts exactly the correctly authenticated ciphertexts -/
 
-/-- the Poly1305 key of a pull is the first 32 key-stream bytes at this position (definitional) -/
+/-- the Poly1305 key of a pull is the first 32 key-stream bytes at this position (DEFINITIONAL: `rfl`, unfolds the
+abbreviation `macKey`; it asserts nothing about the code beyond the model's definition of `pull`) -/
 theorem mac_key_depends_on_position (P : Prims) (s : State) :
     macKey P s = P.chacha s.k s.nonce 0 32 := rfl
 
@@ -294,7 +514,7 @@ theorem mac_key_counter (P : Prims) (s : State) (hs : StateWF s) :
     macKey P s = P.chacha s.k (s.counter ++ s.inonce) 0 32 := by
   rw [← Proofs.SecretStream.nonce_split s hs]; rfl
 
-/-- the tag block as `pull` reconstructs it (definitional) -/
+/-- the tag block as `pull` reconstructs it (DEFINITIONAL: `rfl`, unfolds the abbreviation `pullBlock`) -/
 theorem pullBlock_def (P : Prims) (s : State) (ct : Bytes) :
     pullBlock P s ct =
       ct.take 1 ++ (xorBytes (ct.take 1 ++ zeros 63) (P.chacha s.k s.nonce 1 64)).drop 1 := rfl
@@ -484,7 +704,11 @@ theorem guard_runPull (P : Prims) (hG : WF (guard P)) (ws : List Wire) (s : Stat
 
 /-- `pull ∘ push` for the driver's primitives: from every well-formed state, for every message, AD and
 tag byte, `push` succeeds with a ciphertext 17 bytes longer, ends in a well-formed state, and `pull`
-from the same state returns the message, the tag byte and **the very state `push` ended in** -/
+from the same state returns the message, the tag byte and **the very state `push` ended in**.
+MEANINGFUL FOR `(hm : m.length ≤ STREAM_BODY_MAX)` only (third review): the theorem carries no length bound and holds
+beyond the key-stream limit merely because `Spec/ChaCha20.lean` wraps its 32-bit block counter (`UInt32.ofNat`), where the
+ChaCha20 crate refuses the request and the Rust returns `Err` (`pushChecked_too_long`); within the bound no block counter
+wraps (`body_counters_no_wrap`) and the statement is about the code (`pushChecked_ok`, `push_pull_same_limit`). -/
 theorem pull_push_concrete (s : State) (hs : StateWF s) (m ad : Bytes) (tag : UInt8)
     (buf : Bytes) (tagv : UInt8) (hb : m.length ≤ buf.length) :
     ∃ c s', push streamPrims s (m.length + 17) m ad tag = .ok (c, s') ∧ c.length = m.length + 17 ∧
@@ -508,7 +732,9 @@ theorem objPull_objPush_concrete (s : State) (hs : StateWF s) (m ad : Bytes) (ta
   exact ⟨c, s', ho, hp⟩
 
 /-- histories of any length and shape stay in lockstep, for the driver's primitives, from every
-well-formed state -/
+well-formed state.  MEANINGFUL FOR `SizesOk ops` only (every message at most `STREAM_BODY_MAX` bytes): no length bound is
+assumed and beyond it the statement holds only through the wrapping block counter of `Spec/ChaCha20.lean`; the version
+with the bound, about the statement-by-statement functions, is `historyChecked_lockstep_concrete`. -/
 theorem history_lockstep_concrete (ops : List Op) (s : State) (hs : StateWF s) :
     runPull streamPrims s (runPush streamPrims s ops).2 = some ((runPush streamPrims s ops).1, sent ops) ∧
     (runPush streamPrims s ops).2.length = ops.length := by
@@ -523,7 +749,8 @@ theorem initState_wf_concrete (header key : Bytes) (hh : 24 ≤ header.length) (
   Proofs.Inst.streamPrims_initState_wf header key hh hk
 
 /-- … hence a whole session — both sides initialised from the same key and header, then any history —
-stays in lockstep with no hypothesis beyond the two array lengths -/
+stays in lockstep with no hypothesis beyond the two array lengths.  MEANINGFUL FOR `SizesOk ops` only (see
+`history_lockstep_concrete`); with the bound and for the code as written: `sessionChecked_lockstep_concrete`. -/
 theorem session_lockstep_concrete (header key : Bytes) (hh : 24 ≤ header.length) (hk : 32 ≤ key.length)
     (ops : List Op) :
     runPull streamPrims (initState streamPrims header key)
@@ -540,7 +767,9 @@ for a MAC with collisions, e.g. `toyP`).  What is a theorem is the reduction: ea
 concrete Poly1305 forgery or collision.  `ctBody ct = (ct.drop 1).take (ct.length - 17)` and
 `ctMac ct = ct.drop (1 + (ct.length - 17))` are the slices `pull` takes. -/
 
+/-- (definitional: `rfl`; unfolds the abbreviation) -/
 theorem ctBody_def (ct : Bytes) : ctBody ct = (ct.drop 1).take (ct.length - 17) := rfl
+/-- (definitional: `rfl`; unfolds the abbreviation) -/
 theorem ctMac_def (ct : Bytes) : ctMac ct = ct.drop (1 + (ct.length - 17)) := rfl
 
 /-- What `push` hands out: the ciphertext is 17 bytes longer than the message, its last 16 bytes are the
@@ -622,7 +851,9 @@ theorem advance_nonce_ne (P : Prims) (s : State) (hs : StateWF s) (mac : Bytes) 
 
 /-! ### 13. counters over a whole key epoch; `rekey` exactly -/
 
+/-- (definitional: `rfl`; the two equations of `advanceRun`) -/
 theorem advanceRun_nil (P : Prims) (s : State) : advanceRun P s [] = s := rfl
+/-- (definitional: `rfl`) -/
 theorem advanceRun_cons (P : Prims) (s : State) (p : Bytes × UInt8) (r : List (Bytes × UInt8)) :
     advanceRun P s (p :: r) = advanceRun P (advance P s p.1 p.2) r := rfl
 
@@ -1089,6 +1320,202 @@ theorem historyChecked_breaks_near_max (P : Prims) (hP : WF P) (s : State) (m ad
     | panic => simp [runPushRaw, hr]
   · simp [runPush, ho]
 
+theorem runPullRaw_eq_runPullWith (P : Prims) (s : State) (ws : List Wire) :
+    runPullRaw P s ws = runPullWith (objPullCode P) P s ws := by
+  induction ws generalizing s with
+  | nil => rfl
+  | cons w ws ih =>
+    cases w with
+    | rekey => simp only [runPullRaw, runPullWith, ih]
+    | msg ct ad =>
+      simp only [runPullRaw, runPullWith]
+      split <;> simp_all
+
+/-- **`historyChecked_lockstep` with rejected deliveries in between**, for the code as written (`objPushRaw` /
+`objPullCode`): messages of at most `STREAM_BODY_MAX` bytes, wire items delivered in order, any number of other
+deliveries in between, each rejected where it is offered — the receiver returns exactly the pushed messages and ends
+in the sender's state.  A rejected `DryocStream::pull` leaves the state it works on (`C17.objPullCode_err_keeps_state`,
+here `Proofs.SecretStream.objPullCode_err_state`); that is what makes the rejected deliveries free. -/
+theorem historyChecked_lockstep_lossy (P : Prims) (hP : WF P) (ops : List Op) (s : State) (hlen : SizesOk ops)
+    (ds : List Deliver)
+    (hord : genuine ds = List.range (runPushRaw P s ops).2.length)
+    (hrej : forgedRejected (objPullCode P) P (runPushRaw P s ops).2 s ds = true) :
+    runPullLossy (objPullCode P) P (runPushRaw P s ops).2 s ds = some ((runPushRaw P s ops).1, sent ops) := by
+  have h := (historyChecked_lockstep P hP ops s hlen).2.1
+  rw [runPullRaw_eq_runPullWith] at h
+  refine runPullLossy_of_runPullWith (objPullCode P) P
+    (fun s ct ad he => Proofs.SecretStream.objPullCode_err_state P s ct ad he)
+    _ ds 0 s _ (Nat.zero_le _) (by simpa using h) (by rw [hord, List.range_eq_range']; simp) hrej
+
+/-! ### 14b. the ORDER of the writes of `pull` (third review; `Model/SecretStreamStore.lean`)
+
+`failed_pull_preserves` / `failed_pullChecked_preserves` unfold models whose `.err` branches name the caller's values.
+`pullStmts` is the classic `pull` as statements on a store `⟨state, message, tag⟩`, every assignment of the Rust a
+write in source order, `Err` returning the store reached so far. -/
+
+/-- **a rejected `pull` returns state, message buffer and tag variable untouched — as a theorem about the order of the
+statements of the source**: each of its four `return Err` precedes the first write -/
+theorem pullStmts_err_untouched (P : Prims) (ct ad : Bytes) (μ : Mem)
+    (h : (pullStmts P ct ad μ).1 = .err) : (pullStmts P ct ad μ).2 = μ :=
+  Proofs.SecretStream.pullStmts_err_untouched P ct ad μ h
+
+/-- the store-passing `pull` is `pullRaw` (= `pullChecked`, = `pull` below the length limit): verdict and store -/
+theorem pullStmts_eq_pullRaw (P : Prims) (ct ad : Bytes) (μ : Mem) :
+    pullStmts P ct ad μ =
+      ((pullRaw P μ.st μ.buf μ.tag ct ad).res,
+       ⟨(pullRaw P μ.st μ.buf μ.tag ct ad).st, (pullRaw P μ.st μ.buf μ.tag ct ad).buf,
+        (pullRaw P μ.st μ.buf μ.tag ct ad).tag⟩) :=
+  Proofs.SecretStream.pullStmts_eq_pullRaw P ct ad μ
+
+/-- with `xor_buf(inonce, &mac)` moved above the MAC comparison the statement FAILS (and a forgery desynchronises the
+stream); with the order before fix E8 it fails too (`C17.pullStmtsOld8_violates`) -/
+theorem pullStmtsEarlyState_violates :
+    ¬ ∀ (P : Prims) (ct ad : Bytes) (μ : Mem),
+        (pullStmtsEarlyState P ct ad μ).1 = .err → (pullStmtsEarlyState P ct ad μ).2 = μ :=
+  Proofs.SecretStream.pullStmtsEarlyState_violates
+
+/-- non-vacuity: the `Err` premise on the interesting path (forged authenticator, full length) -/
+example : (pullStmts Proofs.SecretStream.toyPrims ([1, 2] ++ zeros 16) [0x42] Proofs.SecretStream.storeToyMem).1 = .err := by
+  decide
+
+/-! ### 14c. the driver's primitives with the length bound (third review) -/
+
+section ConcreteChecked
+open DryocVerif.Model (streamPrims)
+open DryocVerif.Proofs.Inst (streamPrims_guard_wf)
+open DryocVerif.Proofs.Inst.Stream
+
+/-- **within the length bound no ChaCha20 block counter of the message body wraps**: the body of a message of `len`
+bytes uses the blocks `2, 3, …, 2 + ⌈len/64⌉ − 1`; for `len ≤ STREAM_BODY_MAX = 64·(2^32 − 3)` all of them are below
+`2^32 − 1 = u32::MAX`, the last block the crate hands out — so `UInt32.ofNat` in `Spec/ChaCha20.lean` is the identity on
+them and the executable spec is the crate's key stream -/
+theorem body_counters_no_wrap (len : Nat) (h : len ≤ STREAM_BODY_MAX) :
+    ∀ j, j < (len + 63) / 64 → 2 + j < 2 ^ 32 - 1 := by
+  intro j hj
+  have hB := (STREAM_BODY_MAX_eq).1
+  omega
+
+/-- … and the bound is sharp: one more block and the counter reaches `u32::MAX` -/
+theorem body_counters_wrap_above : ∃ j, j < (STREAM_BODY_MAX + 1 + 63) / 64 ∧ 2 + j = 2 ^ 32 - 1 :=
+  ⟨2 ^ 32 - 3, by decide, by decide⟩
+
+example : ∃ len, len ≤ STREAM_BODY_MAX := ⟨0, by decide⟩
+
+theorem guard_objPushRaw (P : Prims) (s : State) (hs : StateWF s) (m ad : Bytes) (tag : UInt8) :
+    objPushRaw (guard P) s m ad tag = objPushRaw P s m ad tag := by
+  simp only [objPushRaw, pushRaw, pushRawBody, pushRawBodyWith, keystream, guard_chacha P s hs, guard_mac,
+    guard_advance P s hs]
+
+theorem guard_keystream (P : Prims) (s : State) (hs : StateWF s) (pos len : Nat) :
+    keystream (guard P) s pos len = keystream P s pos len := by
+  simp only [keystream, guard_chacha P s hs]
+
+theorem guard_tagBlockRaw (P : Prims) (s : State) (hs : StateWF s) (ct : Bytes) :
+    tagBlockRaw (guard P) s ct = tagBlockRaw P s ct := by
+  simp only [tagBlockRaw, guard_keystream P s hs]
+
+theorem guard_pullRawBodyWith (g f : Bool) (P : Prims) (s : State) (hs : StateWF s) (m ct ad : Bytes) :
+    pullRawBodyWith g f (guard P) s m ct ad = pullRawBodyWith g f P s m ct ad := by
+  unfold pullRawBodyWith
+  simp only [guard_keystream P s hs, guard_tagBlockRaw P s hs, guard_mac, guard_advance P s hs]
+  rfl
+
+theorem guard_objPullCode (P : Prims) (s : State) (hs : StateWF s) (ct ad : Bytes) :
+    objPullCode (guard P) s ct ad = objPullCode P s ct ad := by
+  have h : pullRawWith true (guard P) s = pullRawWith true P s := by
+    funext m tagv ct ad
+    simp only [pullRawWith, pullRawBody, guard_pullRawBodyWith _ _ P s hs]
+  simp only [objPullCode, objPullRawWith, objPullRawGen, h]
+
+theorem guard_runPushRaw (P : Prims) (hG : WF (guard P)) (ops : List Op) (s : State) (hs : StateWF s)
+    (hlen : SizesOk ops) : runPushRaw (guard P) s ops = runPushRaw P s ops := by
+  induction ops generalizing s with
+  | nil => rfl
+  | cons op ops ih =>
+    have hlen' : SizesOk ops := fun m ad tag h => hlen m ad tag (List.mem_cons_of_mem _ h)
+    cases op with
+    | rekey =>
+      have hr := (state_wf_preserved (guard P) hG s hs).1
+      rw [guard_rekey P s hs] at hr
+      simp only [runPushRaw, guard_rekey P s hs, ih _ hr hlen']
+    | push m ad tag =>
+      have hm : m.length ≤ STREAM_BODY_MAX := hlen m ad tag (List.mem_cons_self ..)
+      have ho := guard_objPushRaw P s hs m ad tag
+      obtain ⟨c, s', h, _⟩ := push_ok (guard P) hG s m ad tag
+      have hs' := (state_wf_preserved (guard P) hG s hs).2.2.1 _ _ _ _ _ _ h
+      have h1 : objPushRaw (guard P) s m ad tag = .ok (c, s') := by
+        rw [Proofs.SecretStream.objPushRaw_eq_objPush (guard P) hG s m ad tag hm]; exact h
+      have h2 : objPushRaw P s m ad tag = .ok (c, s') := ho ▸ h1
+      simp only [runPushRaw, h1, h2, ih _ hs' hlen']
+
+theorem guard_runPullRaw (P : Prims) (hG : WF (guard P)) (ws : List Wire) (s : State) (hs : StateWF s) :
+    runPullRaw (guard P) s ws = runPullRaw P s ws := by
+  induction ws generalizing s with
+  | nil => rfl
+  | cons w ws ih =>
+    cases w with
+    | rekey =>
+      have hr := (state_wf_preserved (guard P) hG s hs).1
+      rw [guard_rekey P s hs] at hr
+      simp only [runPullRaw, guard_rekey P s hs, ih _ hr]
+    | msg ct ad =>
+      have ho := guard_objPullCode P s hs ct ad
+      have hs' : StateWF (objPullCode (guard P) s ct ad).2 := by
+        rw [Proofs.SecretStream.objPullCode_eq_objPullChecked]
+        unfold objPullChecked
+        by_cases h17 : ct.length < ABYTES
+        · rw [if_pos h17]; exact hs
+        · rw [if_neg h17]
+          have hst : StateWF (pullChecked (guard P) s (zeros (ct.length - ABYTES)) 0 ct ad).st := by
+            rcases Proofs.SecretStream.pullChecked_cases (guard P) s (zeros (ct.length - ABYTES)) 0 ct ad with e | e
+            · rw [e]; exact (state_wf_preserved (guard P) hG s hs).2.2.2.1 _ _ _ _
+            · rw [e]; exact hs
+          simp only []
+          split <;> exact hst
+      simp only [runPullRaw]
+      rw [← ho]
+      split
+      · rename_i mt s' h
+        rw [h] at hs'
+        rw [ih _ hs']
+      · rfl
+
+/-- **`historyChecked_lockstep` for the driver's primitives** (`Model.streamPrims`: the ChaCha20 / HChaCha20 executable
+specs and dryoc's Poly1305 limb model), from every well-formed state, for histories whose messages have at most
+`STREAM_BODY_MAX` bytes each: the statement-by-statement `DryocStream::push` / `pull` agree with the total model, the
+pull side accepts everything and returns exactly the pushed `(message, tag)` list, ending in the push side's state.
+`WF streamPrims` itself is FALSE (`Proofs.Inst.streamPrims_not_wf`: the executable spec is total on byte lists and
+yields short blocks for a short key); what is available, and suffices, is `WF (guard streamPrims)` together with the
+fact that every function involved evaluates the key stream on well-formed states only (`guard_objPushRaw`,
+`guard_objPullCode`, new). -/
+theorem historyChecked_lockstep_concrete (ops : List Op) (s : State) (hs : StateWF s) (hlen : SizesOk ops) :
+    runPushRaw streamPrims s ops = runPush streamPrims s ops ∧
+    runPullRaw streamPrims s (runPushRaw streamPrims s ops).2
+      = some ((runPushRaw streamPrims s ops).1, sent ops) ∧
+    (runPushRaw streamPrims s ops).2.length = ops.length := by
+  obtain ⟨h1, h2, h3⟩ := historyChecked_lockstep (guard streamPrims) streamPrims_guard_wf ops s hlen
+  rw [guard_runPullRaw streamPrims streamPrims_guard_wf _ s hs] at h2
+  rw [guard_runPushRaw streamPrims streamPrims_guard_wf ops s hs hlen] at h1 h2 h3
+  rw [guard_runPush streamPrims streamPrims_guard_wf ops s hs] at h1
+  exact ⟨h1, h2, h3⟩
+
+/-- … and a whole session initialised from a 32-byte key and a 24-byte header -/
+theorem sessionChecked_lockstep_concrete (header key : Bytes) (hh : 24 ≤ header.length) (hk : 32 ≤ key.length)
+    (ops : List Op) (hlen : SizesOk ops) :
+    runPullRaw streamPrims (initState streamPrims header key)
+        (runPushRaw streamPrims (initState streamPrims header key) ops).2
+      = some ((runPushRaw streamPrims (initState streamPrims header key) ops).1, sent ops) :=
+  (historyChecked_lockstep_concrete ops _ (initState_wf_concrete header key hh hk) hlen).2.1
+
+/-- non-vacuity: the hypotheses on a concrete session (all-zero key and header, a two-message history) -/
+example : (24 ≤ (zeros 24).length ∧ 32 ≤ (zeros 32).length) ∧ SizesOk [.push [1, 2] [3] 0, .rekey, .push [] [] 2] := by
+  refine ⟨⟨by decide, by decide⟩, ?_⟩
+  intro m ad tag h
+  simp only [List.mem_cons, List.not_mem_nil, or_false, Op.push.injEq, reduceCtorEq, false_or] at h
+  rcases h with ⟨rfl, _, _⟩ | ⟨rfl, _, _⟩ <;> decide
+
+end ConcreteChecked
+
 /-! ### 15. non-vacuity witnesses for sections 12–14 -/
 
 /-- `wrong_ad_accept_imp_collision`: all hypotheses hold for the toy MAC (which looks at the first 16 bytes
@@ -1219,6 +1646,41 @@ example : ∃ c1 s1 c2 s2, push toyPN toyS5 18 [0x41] [] 0 = .ok (c1, s1) ∧
     pull toyPN s1 [0] 0 c2 [] = ⟨.ok 1, [0x42], 0, s2⟩ :=
   ⟨_, _, _, _, rfl, rfl, by decide, by decide, by decide⟩
 
+/-- `history_lockstep_lossy` / `historyChecked_lockstep_lossy`: a schedule for the two-message history (with an explicit
+rekey on the wire) that offers three made-up deliveries — garbage, a too short ciphertext, and the FIRST genuine
+ciphertext again (a replay, rejected by the nonce-dependent toy primitives) — between the genuine items: the hypotheses
+hold, and the receiver ends with exactly the two pushed messages -/
+def toyLossyOps : List Op := [.push [0x41] [] 0, .rekey, .push [0x42] [] 0]
+def toyLossySchedule : List Deliver :=
+  [.forged (List.replicate 18 7) [], .wire 0, .forged [1, 2, 3] [], .wire 1,
+   .forged ((match (runPush toyPN toyS5 toyLossyOps).2 with | .msg c _ :: _ => c | _ => [])) [], .wire 2]
+
+example : genuine toyLossySchedule = List.range (runPush toyPN toyS5 toyLossyOps).2.length := by decide
+
+example : forgedRejected (objPull toyPN) toyPN (runPush toyPN toyS5 toyLossyOps).2 toyS5 toyLossySchedule = true := by
+  decide
+
+example : runPullLossy (objPull toyPN) toyPN (runPush toyPN toyS5 toyLossyOps).2 toyS5 toyLossySchedule
+    = some ((runPush toyPN toyS5 toyLossyOps).1, [([0x41], 0), ([0x42], 0)]) := by decide
+
+/-- `historyChecked_lockstep_lossy`: all four hypotheses on the same schedule, for the code as written
+(`objPushRaw` / `objPullCode`) — and its conclusion, evaluated -/
+theorem toyPN_wf : WF toyPN :=
+  ⟨fun _ _ _ _ => by simp [toyPN], fun _ _ => by simp [toyPN]⟩
+
+example : SizesOk toyLossyOps := by
+  intro m ad tag h
+  simp only [toyLossyOps, List.mem_cons, List.not_mem_nil, or_false, Op.push.injEq, reduceCtorEq, false_or] at h
+  rcases h with ⟨rfl, _, _⟩ | ⟨rfl, _, _⟩ <;> decide
+
+example : genuine toyLossySchedule = List.range (runPushRaw toyPN toyS5 toyLossyOps).2.length := by decide +kernel
+
+example : forgedRejected (objPullCode toyPN) toyPN (runPushRaw toyPN toyS5 toyLossyOps).2 toyS5 toyLossySchedule
+    = true := by decide +kernel
+
+example : runPullLossy (objPullCode toyPN) toyPN (runPushRaw toyPN toyS5 toyLossyOps).2 toyS5 toyLossySchedule
+    = some ((runPushRaw toyPN toyS5 toyLossyOps).1, [([0x41], 0), ([0x42], 0)]) := by decide +kernel
+
 /-! ### 16. tie to the source: the length guards and constants as translated on every run (`Gen/Stream.lean`)
 
 The size condition of section 14 (`SizesOk`, `pushChecked_ok_iff`, `push_pull_same_limit`, `libsodium_accepts_more`) is
@@ -1271,5 +1733,16 @@ open DryocVerif.Properties.C03
 #print axioms translated_stream_push_guards
 #print axioms translated_stream_pull_guards
 #print axioms translated_stream_constants
+#print axioms initState_counter
+#print axioms runPullLossy_of_runPullWith
+#print axioms history_lockstep_lossy
+#print axioms history_lockstep_lossy_none
+#print axioms historyChecked_lockstep_lossy
+#print axioms pullStmts_err_untouched
+#print axioms pullStmts_eq_pullRaw
+#print axioms pullStmtsEarlyState_violates
+#print axioms body_counters_no_wrap
+#print axioms historyChecked_lockstep_concrete
+#print axioms sessionChecked_lockstep_concrete
 end AxiomCheck
 
